@@ -43,7 +43,8 @@ def bounds(tier):
     q = tier == "quick"
     return {"wrapped": ["ParzenWindowClassifier", "SklearnClassifier(GaussianNB)"], "flags": "all 8 combinations of use_speed_up x enforce_unique_samples x "
             "ignore_partial_fit (speed-up only for PWC)", "weights": [False, True], "index_sets": [list(i) for i in (IDX_MENU if not q else IDX_MENU[:6])],
-            "label_overrides": ["None", "all 1", "all 0"] if not q else ["None", "all 1"], "depth": 2 if q else 3, "max_states": 3000 if q else 40000}
+            "label_overrides": ["None", "all 1", "all 0"] if not q else ["None", "all 1"], "depth": 3, "depth_note": "quick: the third level uses a reduced menu (index sets [0],[1,2], stored labels, all flag combinations)",
+            "max_states": 6000 if q else 40000}
 
 
 def configs():
@@ -83,11 +84,15 @@ def make_wrapper(cfg):
     return w
 
 
-def ops_menu(tier):
+def ops_menu(tier, level=0):
     b = bounds(tier)
     ys = [None, 1.0] if tier == "quick" else [None, 1.0, 0.0]
+    sets = b["index_sets"]
+    if tier == "quick" and level >= 2:
+        # third level of the quick tier: reduced menu (every flag combination, three index sets, stored labels)
+        sets, ys = [[0], [1, 2]], [None]
     ops = []
-    for idx in b["index_sets"]:
+    for idx in sets:
         for yv in ys:
             for sb in (False, True):
                 ops.append(("fit", tuple(idx), yv, None, sb))
@@ -200,6 +205,7 @@ def explore(acc, cfg, tier):
     capped = False
     for depth in range(b["depth"]):
         nxt = []
+        ops = ops_menu(tier, depth)
         for hist in frontier:
             for op in ops:
                 h2 = hist + (op,)
@@ -309,12 +315,60 @@ def run_shard(spec):
     return acc
 
 
+def _name(cfg):
+    return "IndexClassifierWrapper[%s%s%s%s%s]" % (cfg["clf"], ",speed_up" if cfg["speed"] else "", ",unique" if cfg["uniq"] else "",
+                                                   ",ignore_partial_fit" if cfg["ign"] and cfg["clf"] == "gnb" else "", ",weights" if cfg["wts"] else "")
+
+
 def replay(spec):
-    acc = Acc()
+    """targeted replay of one recorded history (the explorer is not needed)"""
     cfg = spec["cfg"]
     cfg = {"clf": cfg["clf"], "speed": bool(cfg["speed"]), "uniq": bool(cfg["uniq"]), "ign": bool(cfg["ign"]), "wts": bool(cfg["wts"])}
+    hist = [(o[0], tuple(int(i) for i in o[1]), None if o[2] is None else float(o[2]), (None if o[3] is None else bool(o[3])), bool(o[4]))
+            for o in spec["history"]]
+    out = []
     if spec.get("speedcmp"):
-        compare_speedup(acc, cfg, "thorough")
-    else:
-        explore(acc, cfg, "thorough" if len(spec["history"]) > 2 else "quick")
-    return [(s, k) for (s, k, _p) in acc.groups]
+        res = []
+        for c in (cfg, dict(cfg, speed=False)):
+            w = make_wrapper(c)
+            try:
+                for o in hist:
+                    apply_op(w, o)
+                res.append(("ok", observe(w)))
+            except Exception as e:
+                res.append(("exc", type(e).__name__))
+        a, b_ = res
+        name = "IndexClassifierWrapper[speed_up on/off]"
+        if a[0] != b_[0] or (a[0] == "exc" and a[1] != b_[1]):
+            out.append((name, "speed_up_changes_outcome"))
+        elif a[0] == "ok" and any(not np.allclose(a[1][k], b_[1][k], rtol=1e-9, atol=1e-12, equal_nan=True) for k in a[1]):
+            out.append((name, "speed_up_changes_prediction"))
+        return out
+    name = _name(cfg)
+    w = make_wrapper(cfg)
+    ref = Ref(cfg)
+    for o in hist[:-1]:
+        apply_op(w, o)
+        ref.apply(o)
+    op = hist[-1]
+    exp = ref.apply(op)
+    try:
+        apply_op(w, op)
+        res = "ok"
+    except Exception as e:
+        res = type(e).__name__
+    if res != "ok":
+        if not (exp == "notfitted" and res == "NotFittedError"):
+            out.append((name, "operation_fails:" + res))
+        return out
+    if exp == "notfitted":
+        return [(name, "no_error_without_model")]
+    try:
+        got, want = observe(w), ref.predictions()
+    except Exception as e:
+        return [(name, "prediction_fails:" + type(e).__name__)]
+    for k in want:
+        if k in got and (got[k].shape != want[k].shape or not np.allclose(got[k], want[k], rtol=1e-9, atol=1e-12, equal_nan=True)):
+            out.append((name, "differs_from_retraining"))
+            break
+    return out
